@@ -137,10 +137,7 @@ class Zoo(object):
 
     def hier(self, posterior=False):
         chi, rng = self.chi, self.rng
-        while True:
-            n_ids, subs = c02.gen_case(rng)
-            if not any(c == 5 and nc for c, _, nc, _ in subs):
-                break
+        n_ids, subs = c02.gen_case(rng)
         D = sum(nd for _, nd, _, _ in subs)
         n_cov = sum(nc for _, _, nc, _ in subs)
         cov = rng.normal(size=(n_ids, n_cov)) * 0.3 if n_cov else None
